@@ -1,6 +1,8 @@
 // C01 — every JSX element renders the vnode type and props its source denotes.
 import { mulberry32, held, violated, inconclusive, short, optLabel, ALL_TAGS } from './lib.mjs';
-import { TAG_FORMS, ATTR_KINDS, PATTERNS, buildElemCase } from './elem.mjs';
+import { TAG_FORMS, ATTR_KINDS, PATTERNS, buildElemCase, makeAttr, newAttrState, makeTag } from './elem.mjs';
+import { ModuleBuilder } from './lib.mjs';
+import { A, renderElement } from '../runtime/spec.mjs';
 import { evalSemantic, firstDiff, pickVNode } from './semantic.mjs';
 
 export const id = 'C01';
@@ -55,6 +57,42 @@ export function* generate({ tier, seed }) {
     if (seq.length < 2) continue;
     yield mk(tf, seq, tier === 'quick' || seq.length > 3 ? [seqVariants[rng.int(seqVariants.length)]] : seqVariants);
   }
+  // 3b. repeated attribute names under mergeProps:false (plain last-wins semantics is decided there)
+  const nDup = tier === 'quick' ? 600 : 8000;
+  const offVariants = OPTION_VARIANTS.filter((o) => !o.mergeProps);
+  for (let i = 0; i < nDup; i++) {
+    const b = new ModuleBuilder();
+    const tf = rng.pick(TAG_FORMS);
+    const tag = makeTag(b, tf);
+    const st = newAttrState();
+    const attrs = [];
+    const len = 2 + rng.int(5);
+    for (let j = 0; j < len; j++) {
+      const kind = rng.pick(['strPlain', 'valueless', 'call', 'identUnbound', 'classStr', 'classExpr', 'styleObj', 'onClick', 'onOther', 'spreadIdent', 'spreadObjLit', 'num']);
+      const a = makeAttr(b, rng, kind, st);
+      if (!a) continue;
+      // re-use an earlier plain name now and then
+      if (a.t === 'attr' && /^p\d+$/.test(a.name) && rng.bool(0.5)) {
+        const earlier = attrs.filter((x) => x.t === 'attr' && /^p\d+$/.test(x.name));
+        if (earlier.length) { const nm = rng.pick(earlier).name; a.src = a.src.replace(a.name, nm); a.name = nm; }
+      }
+      attrs.push(a);
+    }
+    const el = { tag, attrs, children: [], selfClose: true };
+    b.addThunk('t0', renderElement(el));
+    yield { gid: `C01-${n++}`, src: b.source(), syntax: 'jsx', spec: { thunks: [{ name: 't0', el }], env: b.env }, feature: `dupOff|${tf.form}|${attrs.map((a) => a.kind).join(',')}`, nontrivial: true, variants: [{ vid: 'v0', options: rng.pick(offVariants) }] };
+  }
+  // 3c. one module, the same tag name bound in one scope and unbound in another (both orders)
+  for (const order of ['boundFirst', 'unboundFirst']) for (const o of [OPTION_VARIANTS[0], OPTION_VARIANTS[3], OPTION_VARIANTS[8]]) for (const name of ['Foo', 'Gadget2']) {
+    const b = new ModuleBuilder();
+    b.importDefault('probe:C0', 'C0');
+    const boundEl = { tag: { kind: 'bound', src: name, i: b.leaf('C0') }, attrs: [A.attr('a', { k: 'str', raw: 'b' })], children: [], selfClose: true };
+    const unboundEl = { tag: { kind: 'unbound', name, src: name }, attrs: [A.attr('a', { k: 'str', raw: 'u' })], children: [], selfClose: true };
+    const boundSrc = `function inner(${name}) { return ${renderElement(boundEl)}; }\nexport const tb = () => inner(C0);`;
+    const unboundSrc = `export const tu = () => ${renderElement(unboundEl)};`;
+    b.thunks.push(...(order === 'boundFirst' ? [boundSrc, unboundSrc] : [unboundSrc, boundSrc]));
+    yield { gid: `C01-${n++}`, src: b.source(), syntax: 'jsx', spec: { thunks: [{ name: 'tb', el: boundEl }, { name: 'tu', el: unboundEl }], env: b.env }, feature: `scopes|${order}|${name}`, nontrivial: true, variants: [{ vid: 'v0', options: o }] };
+  }
   // 4. random longer sequences over everything
   const nRandom = tier === 'quick' ? 15000 : 300000;
   for (let i = 0; i < nRandom; i++) {
@@ -100,23 +138,25 @@ export async function check(group, records) {
       else out.push(violated({ ...base, oracle: 'module-evaluates', sig: `C01/module-error/${r.error.phase}/${r.error.name}`, detail: r.error }));
       continue;
     }
-    const th = r.thunks[0];
-    if (th.B.error) { out.push(inconclusive({ ...base, reason: 'reference interpreter failed: ' + short(th.B.error) })); continue; }
-    if (th.A.error) {
-      out.push(violated({ ...base, oracle: 'thunk-evaluates', sig: `C01/runtime-error/${th.A.error.name}`, detail: th.A.error }));
-      continue;
-    }
-    const a = pickVNode(th.A.canon, ['type', 'props']);
-    const bb = pickVNode(th.B.canon, ['type', 'props']);
-    const d = firstDiff(a, bb);
-    const nVnodes = th.A.events.filter((e) => e.k === 'vnode').length;
-    if (d) {
-      out.push(violated({
-        ...base, oracle: 'type+props == reference fold', sig: `C01/props-differ/${classify(d, group.spec, v.options)}`,
-        detail: { path: d.path, observed: short(d.a), expected: short(d.b) },
-      }));
-    } else {
-      out.push(held({ ...base, events: { vnode: nVnodes, probe: th.A.trace.length }, shape: short(a, 160) }));
+    for (const th of r.thunks) {
+      const tb = { ...base, feature: r.thunks.length > 1 ? `${base.feature}|${th.name}` : base.feature };
+      if (th.B.error) { out.push(inconclusive({ ...tb, reason: 'reference interpreter failed: ' + short(th.B.error) })); continue; }
+      if (th.A.error) {
+        out.push(violated({ ...tb, oracle: 'thunk-evaluates', sig: `C01/runtime-error/${th.A.error.name}`, detail: th.A.error }));
+        continue;
+      }
+      const a = pickVNode(th.A.canon, ['type', 'props']);
+      const bb = pickVNode(th.B.canon, ['type', 'props']);
+      const d = firstDiff(a, bb);
+      const nVnodes = th.A.events.filter((e) => e.k === 'vnode').length;
+      if (d) {
+        out.push(violated({
+          ...tb, oracle: 'type+props == reference fold', sig: `C01/props-differ/${classify(d, group.spec, v.options)}`,
+          detail: { path: d.path, observed: short(d.a), expected: short(d.b) },
+        }));
+      } else {
+        out.push(held({ ...tb, events: { vnode: nVnodes, probe: th.A.trace.length }, shape: short(a, 160) }));
+      }
     }
   }
   return out;
